@@ -361,7 +361,15 @@ func (s *sender) sendEmptyPacket() {
 		frameNo:    s.frameNo,
 		data:       []byte{},
 	}
-	s.sendQueue <- pkt
+	// The caller holds the tube's lifecycle lock, and the goroutine that
+	// drains this queue takes the same lock on every retransmission tick: a
+	// blocking send on a full queue would deadlock the two (and with them the
+	// muxer's receiver). Acknowledgements are cumulative, so one that does not
+	// fit is simply dropped; the next frame or retransmission produces another.
+	select {
+	case s.sendQueue <- pkt:
+	default:
+	}
 }
 
 func (s *sender) framesToSend(rto bool, startIndex int) int {
